@@ -35,6 +35,12 @@ def extOk (s : Line) : Bool := s.all fun c => isWordC c || c == '.' || c == '-'
 /-- `Metadata.Key(number=…, name=…, …)`: the checks of `__post_init__`. -/
 def Key.valid (k : Key) : Bool :=
   (k.number.isSome || k.name.isSome) && (match k.name with | some s => nameOk s | none => true)
+    && (match k.regExt with | some s => extOk s | none => true)
+
+/-- `_check_metadata_value` on the lines of a value (`value.split("\n")`): not empty, no blank line,
+no line that starts with `>` after `strip()`. -/
+def valueOk (v : List Line) : Bool :=
+  !v.isEmpty && v.all fun l => !(strip l).isEmpty && !startsWith ['>'] (strip l)
 
 def Key.serialize (k : Key) : Line :=
   "> ".toList
@@ -93,6 +99,10 @@ abbrev Metadata := List (Key × List Line)
 def dictSet {κ ν : Type} [DecidableEq κ] (k : κ) (v : ν) : List (κ × ν) → List (κ × ν)
   | [] => [(k, v)]
   | (k', v') :: rest => if k' = k then (k', v) :: rest else (k', v') :: dictSet k v rest
+
+/-- `metadata[key] = value` (`Metadata.__setitem__`, and each item of the constructor). -/
+def Metadata.setItem (md : Metadata) (k : Key) (v : List Line) : Except Err Metadata :=
+  if !k.valid || !valueOk v then .error .valueError else .ok (dictSet k v md)
 
 def Metadata.serialize (md : Metadata) : List Line :=
   md.flatMap fun kv => kv.1.serialize :: kv.2 ++ [[]]
@@ -254,8 +264,15 @@ def SDRec.deserialize (lines : List Line) : Except Err SDRecR := do
   pure ⟨h, m, md⟩
 
 /-- `SDFile` with one record per molecule name, `serialize()` as lines. -/
+def serErr : Err := .other "SerializationError"
+
+/-- no line of any record starts with the record delimiter (checked by `SDFile.serialize` after the
+`fix:` commit) -/
+def noDelimLines (recs : List (List Line)) : Bool := recs.all fun r => r.all fun l => !startsWith delim l
+
 def sdfSerialize (rs : List SDRec) (d : Nat) (v : Version) : Except Err (List Line) := do
   let recs ← rs.mapM fun r => r.serialize d v
+  if !noDelimLines recs then .error serErr else
   pure (joinRecords recs)
 
 /-- `SDFile.deserialize(text)` and every record read completely: `(name, record)` in file order. -/
